@@ -13,6 +13,9 @@ import PyTough.Proofs.ListingRows
 import PyTough.Proofs.ListingValues
 import PyTough.Proofs.ListingRowFormat
 import PyTough.Proofs.ListingFile
+import PyTough.Proofs.ListingWhole
+import PyTough.Proofs.ListingWholeAut
+import PyTough.Proofs.ListingWholeBlock
 import PyTough.Gen.ListingBind
 
 namespace Props.C05
@@ -272,5 +275,328 @@ example : exT.getByName [['b'], ['c']] = some ⟨[['b'], ['c']], [(['F'], .fin f
 example : exT.getByName [['c'], ['b']] = some ⟨[['c'], ['b']], [(['F'], .fin true 3 0), (['G'], .fin false 4 0)]⟩ := by decide
 example : exT.getCol ['G'] = some [.fin false 2 0, .fin true 4 0] := by decide
 example : lastIdx exT.rows [['b'], ['c']] = some 1 ∧ colIdx exT.cols ['G'] = some 1 := by decide
+
+
+/-! ### a whole printed table: the reading loop of the whole-file reader over the lines of one table
+
+  The region of a TOUGH2-family table, as the layout recorded at set-up time describes it: `header_skiplines` lines
+  (column header, units, blank lines), then for every entry of `skiplines` one printed data line followed by that many
+  lines to be skipped (blank lines, repeated headers), then whatever follows the table (`after`).  `read_table_TOUGH2`
+  is the method bound for TOUGH2, TOUGH2_MP, TOUGH3, TOUGHREACT and TOUGH+ (`binding_is_modelled`). -/
+
+open Proofs.Whole in
+/-- the well-formedness of a table region for a table `t` that has been set up: decidable on concrete lines -/
+def TableRegionT (t : Table) (header : List Str) (segs : List (Str × List Str)) : Prop :=
+  header.length = t.headerSkip ∧ segs.map (·.2.length) = t.skips ∧ t.data.size = t.rows.size ∧
+  ∀ sg ∈ segs, (rowOfLineT t.rows t.keyPos t.cols.length t.numpos sg.1).isSome = true
+
+instance (t : Table) (header : List Str) (segs : List (Str × List Str)) : Decidable (TableRegionT t header segs) := by
+  unfold TableRegionT; infer_instance
+
+open Proofs.Whole in
+/-- what `rowOfLineT … d = some (i, vals)` says about a printed data line `d`: its key (`key_from_line`) names row
+    `i` of the table, the row reader does not raise on it and returns `vals`, one value per column -/
+theorem data_line_meaning (t : Table) (d : Str) (i : Nat) (vals : List FVal) :
+    rowOfLineT t.rows t.keyPos t.cols.length t.numpos d = some (i, vals) ↔
+      ∃ key, keyFromLine d t.keyPos = .ok key ∧ lastIdx t.rows key = some i ∧
+        readTableLineTOUGH2 d t.cols.length t.numpos = .ok vals ∧ vals.length = t.cols.length :=
+  rowOfLineT_spec _ _ _ _ _ _ _
+
+open Proofs.Whole in
+/-- **One row per printed data line (TOUGH2 family).**  `read_table_TOUGH2`, run with the file at the first line of a
+    well-formed table region, returns normally; the file is then exactly behind the region (line count included);
+    for every printed data line `d` (the `j`-th), the row its key names holds exactly the values the row reader
+    returns for `d` — unless a later data line of the same table names the same row, which then wins, as coded;
+    rows named by no data line keep what they held; the table's row names, columns and layout are unchanged; no
+    other table and no other attribute of the reader changes. -/
+theorem table_read_TOUGH2 (tn : String) (t : Table) (s : Rd) (header : List Str) (segs : List (Str × List Str))
+    (after : List Str)
+    (ht : s.tables.lookup tn = some t)
+    (hrest : s.pos.rest = header ++ (flat segs ++ after))
+    (hwf : TableRegionT t header segs) :
+    ∃ s' t', (readTableTOUGH2 tn).run s = .ok ((), s') ∧
+      s'.pos = ⟨s.pos.no + (header.length + (flat segs).length), after⟩ ∧
+      s'.tables.lookup tn = some t' ∧ t' = { t with data := t'.data } ∧ t'.data.size = t.data.size ∧
+      (∀ (j : Nat) d i vals, (segs.map (·.1))[j]? = some d →
+          rowOfLineT t.rows t.keyPos t.cols.length t.numpos d = some (i, vals) →
+          (∀ (j' : Nat) d', j < j' → (segs.map (·.1))[j']? = some d' →
+              ∀ v', rowOfLineT t.rows t.keyPos t.cols.length t.numpos d' ≠ some (i, v')) →
+          t'.data[i]? = some vals.toArray) ∧
+      (∀ i, (∀ d ∈ segs.map (·.1), ∀ v, rowOfLineT t.rows t.keyPos t.cols.length t.numpos d ≠ some (i, v)) →
+          t'.data[i]? = t.data[i]?) ∧
+      (∀ m, m ≠ tn → s'.tables.lookup m = s.tables.lookup m) ∧
+      s'.tables.map (·.1) = s.tables.map (·.1) ∧
+      s' = { s with pos := s'.pos, tables := s'.tables } := by
+  obtain ⟨hh, hsk, hdata, hok⟩ := hwf
+  let f : Str → Option (Nat × List FVal) := rowOfLineT t.rows t.keyPos t.cols.length t.numpos
+  have hups : segs.map (fun sg => f sg.1) = ((segs.map (·.1)).filterMap f).map some := by
+    rw [← map_eq_map_some_filterMap f (segs.map (·.1))]
+    · rw [List.map_map]; rfl
+    · intro x hx
+      obtain ⟨sg, hsg, rfl⟩ := List.mem_map.mp hx
+      exact hok sg hsg
+  have hrun := readTableTOUGH2_run tn t s header segs after _ ht hrest hh hsk hups
+  refine ⟨_, { t with data := applyRows t.data ((segs.map (·.1)).filterMap f) }, hrun, rfl, ?_, rfl, ?_, ?_, ?_, ?_, ?_, rfl⟩
+  · exact putT_lookup_self tn _ _ (by simp [ht])
+  · exact applyRows_size _ _
+  · intro j d i vals hj hf hlater
+    have hi : i < t.data.size := by
+      obtain ⟨key, _, hli, _, _⟩ := (rowOfLineT_spec _ _ _ _ _ _ _).mp hf
+      rw [hdata]; exact (Proofs.Listing.lastIdx_spec hli).1
+    exact applyRows_line f _ t.data j d i vals hj hf hi hlater
+  · intro i h
+    exact applyRows_no_line f _ t.data i h
+  · intro m hm
+    exact putT_lookup_other tn m _ _ hm
+  · exact putT_names tn _ _
+
+open Proofs.Whole in
+/-- **Each cell equals the number printed in that row and column (whole table, TOUGH2 family).**  With the column
+    boundaries `b₀ … bₙ` of the layout (those `column_boundaries_correct` infers), after `read_table_TOUGH2` on a
+    well-formed region the cell in the row named by data line `d` and column `k` is `fortran_float` of columns
+    `[b_k, b_{k+1})` of `d` (what `field_value_printed` / `blank_field_is_zero` evaluate), when no later line names
+    the same row. -/
+theorem cells_equal_printed_table_TOUGH2 (tn : String) (t : Table) (s : Rd) (header : List Str) (segs : List (Str × List Str))
+    (after : List Str) (bounds : List Nat)
+    (ht : s.tables.lookup tn = some t)
+    (hrest : s.pos.rest = header ++ (flat segs ++ after))
+    (hwf : TableRegionT t header segs) (hb : t.numpos = bounds.map natPos) :
+    ∃ s' t', (readTableTOUGH2 tn).run s = .ok ((), s') ∧ s'.pos.rest = after ∧ s'.tables.lookup tn = some t' ∧
+      ∀ (j : Nat) d i vals, (segs.map (·.1))[j]? = some d →
+        rowOfLineT t.rows t.keyPos t.cols.length t.numpos d = some (i, vals) →
+        (∀ (j' : Nat) d', j < j' → (segs.map (·.1))[j']? = some d' →
+            ∀ v', rowOfLineT t.rows t.keyPos t.cols.length t.numpos d' ≠ some (i, v')) →
+        ∃ row, t'.data[i]? = some row ∧ row.size = t.cols.length ∧
+          ∀ (k a b : Nat), bounds[k]? = some a → bounds[k + 1]? = some b → row[k]? = some (readField (slice d a b)) := by
+  obtain ⟨s', t', hrun, hpos, htab, _, _, hline, _⟩ := table_read_TOUGH2 tn t s header segs after ht hrest hwf
+  refine ⟨s', t', hrun, by rw [hpos], htab, ?_⟩
+  intro j d i vals hj hf hlater
+  refine ⟨vals.toArray, hline j d i vals hj hf hlater, ?_, ?_⟩
+  · obtain ⟨_, _, _, _, hl⟩ := (rowOfLineT_spec _ _ _ _ _ _ _).mp hf
+    simpa using hl
+  · intro k a b ha hbb
+    obtain ⟨_, _, _, hv, _⟩ := (rowOfLineT_spec _ _ _ _ _ _ _).mp hf
+    obtain ⟨vals', hv', hcell, _⟩ := row_slicing_correct d t.cols.length bounds
+    rw [hb, hv'] at hv
+    injection hv with hv
+    subst hv
+    simpa using hcell k a b ha hbb
+
+open Proofs.Whole in
+/-- **Skipping a table leaves the file where reading it would (whole table, TOUGH2 family).**  On the same region,
+    for a table with as many rows as printed data lines (no row printed twice), `skip_table_TOUGH2` and
+    `read_table_TOUGH2` end at the same file position, and the skip changes nothing else. -/
+theorem skip_table_lands_where_read_lands_TOUGH2 (tn : String) (t : Table) (s : Rd) (header : List Str)
+    (segs : List (Str × List Str)) (after : List Str)
+    (ht : s.tables.lookup tn = some t)
+    (hrest : s.pos.rest = header ++ (flat segs ++ after))
+    (hwf : TableRegionT t header segs) (hrows : t.rows.size = segs.length) :
+    ∃ s₁ s₂, (readTableTOUGH2 tn).run s = .ok ((), s₁) ∧ (skipTableTOUGH2 tn).run s = .ok ((), s₂) ∧
+      s₂.pos = s₁.pos ∧ s₂ = { s with pos := s₂.pos } := by
+  obtain ⟨s₁, _, hrun, hpos, _⟩ := table_read_TOUGH2 tn t s header segs after ht hrest hwf
+  refine ⟨s₁, _, hrun, skipTableTOUGH2_run tn t s header segs after ht hrest hwf.1 hwf.2.1 hrows, ?_, rfl⟩
+  rw [hpos]
+
+-- the hypotheses of the four theorems above are satisfiable: a two-row element table (header line, blank line, a data
+-- line followed by a blank line, a data line, the `@@@@@` line behind the table)
+private def exT2 : Table :=
+  { mkTable [['P'], ['T'], ['X']] #[[" AA 1".toList], [" BA 1".toList]] 1 false with
+    keyPos := [1], numpos := [12, 24, 36, 49].map natPos, headerSkip := 2, skips := [1, 0] }
+private def exHdr : List Str := [" ELEM. INDEX P T X\n".toList, "\n".toList]
+private def exSegs : List (Str × List Str) :=
+  [("  AA 1     1 0.99013E+07 0.00000E+00-0.12409E+03\n".toList, ["\n".toList]),
+   ("  BA 1     2 0.94153E+07 0.19209-103-0.66842E+01\n".toList, [])]
+private def exAfter : List Str := [" @@@@@@@@@@\n".toList]
+private def exRd : Rd :=
+  { all := exHdr ++ (Proofs.Whole.flat exSegs ++ exAfter), isOutputData := false,
+    pos := ⟨0, exHdr ++ (Proofs.Whole.flat exSegs ++ exAfter)⟩, tables := [("element", exT2)] }
+example : exRd.tables.lookup "element" = some exT2 ∧ exRd.pos.rest = exHdr ++ (Proofs.Whole.flat exSegs ++ exAfter) ∧
+    TableRegionT exT2 exHdr exSegs ∧ exT2.numpos = [12, 24, 36, 49].map natPos ∧ exT2.rows.size = exSegs.length :=
+  ⟨rfl, rfl, by decide, rfl, by decide⟩
+example : Proofs.Whole.rowOfLineT exT2.rows exT2.keyPos exT2.cols.length exT2.numpos exSegs[1].1
+    = some (1, [.fin false 94153 2, .fin false 19209 (-108), .fin true 66842 (-4)]) := by decide
+
+
+/-! ### a whole printed table, AUTOUGH2: the loop runs to the terminator line
+
+  The lines from behind the table's keyword line (`EEEEE`, `CCCCC`, `GGGGG` in columns 1..5): the rest of the title
+  block `A` (non-blank lines), a blank line `b`, the column header block `B` (non-blank lines), blank lines
+  `b2 :: Bl`, the printed data lines `D`, the terminator `term` (the keyword again), then `tail`
+  (`Proofs.Whole.autRegion` is this concatenation). -/
+
+open Proofs.Whole in
+/-- well-formedness of an AUTOUGH2 table region for a table `t` that has been set up: decidable on concrete lines -/
+def TableRegionA (tn : String) (t : Table) (A : List Str) (b : Str) (B : List Str) (b2 : Str) (Bl D : List Str) (term : Str) : Prop :=
+  (∀ l ∈ A, isBlank l = false) ∧ isBlank b = true ∧ (∀ l ∈ B, isBlank l = false) ∧ isBlank b2 = true ∧
+  (∀ l ∈ Bl, isBlank l = true) ∧ isBlank ((D ++ [term]).headD []) = false ∧
+  (∀ d ∈ D, slice d 1 6 ≠ keyword5 tn) ∧ slice term 1 6 = keyword5 tn ∧
+  (∀ d ∈ D, (rowOfLineA t.cols.length (t.numpos.headD none) d).isSome = true) ∧
+  D.length ≤ t.rows.size ∧ t.data.size = t.rows.size
+
+instance (tn : String) (t : Table) (A : List Str) (b : Str) (B : List Str) (b2 : Str) (Bl D : List Str) (term : Str) :
+    Decidable (TableRegionA tn t A b B b2 Bl D term) := by
+  unfold TableRegionA; infer_instance
+
+open Proofs.Whole in
+/-- **One row per printed data line, in order, up to the terminator (AUTOUGH2).**  `read_table_AUTOUGH2`, run with the
+    file at the first line of a well-formed region, returns normally; the loop stops at the terminator line and one
+    more line is read behind it (`tail.drop 1` is left, line count included); row `j` of the table holds exactly the
+    values `read_table_line_AUTOUGH2` returns for the `j`-th printed data line, one per column; rows beyond the
+    printed lines keep what they held; row names, columns and layout of the table are unchanged; no other table and
+    no other attribute of the reader changes. -/
+theorem table_read_AUTOUGH2 (tn : String) (t : Table) (s : Rd)
+    (A : List Str) (b : Str) (B : List Str) (b2 : Str) (Bl D : List Str) (term : Str) (tail : List Str)
+    (ht : s.tables.lookup tn = some t)
+    (hrest : s.pos.rest = autRegion A b B b2 Bl D term tail)
+    (hwf : TableRegionA tn t A b B b2 Bl D term) :
+    ∃ s' t', (readTableAUTOUGH2 tn).run s = .ok ((), s') ∧
+      s'.pos = ⟨s.pos.no + (A.length + 1 + B.length + 1 + Bl.length + D.length + 1 + min 1 tail.length), tail.drop 1⟩ ∧
+      s'.tables.lookup tn = some t' ∧ t' = { t with data := t'.data } ∧ t'.data.size = t.data.size ∧
+      (∀ (j : Nat) d, D[j]? = some d →
+          ∃ vals, readTableLineAUTOUGH2 d (t.numpos.headD none) = .ok vals ∧ vals.length = t.cols.length ∧
+            t'.data[j]? = some vals.toArray) ∧
+      (∀ i, D.length ≤ i → t'.data[i]? = t.data[i]?) ∧
+      (∀ m, m ≠ tn → s'.tables.lookup m = s.tables.lookup m) ∧
+      s'.tables.map (·.1) = s.tables.map (·.1) ∧
+      s' = { s with pos := s'.pos, tables := s'.tables } := by
+  obtain ⟨hA, hb, hB, hb2, hBl, hfirst, hD, hterm, hok, hsz, hdata⟩ := hwf
+  let f : Str → Option (List FVal) := rowOfLineA t.cols.length (t.numpos.headD none)
+  have hmap := map_eq_map_some_filterMap f D hok
+  have hlen : (D.filterMap f).length = D.length := by
+    have := congrArg List.length hmap; simpa using this.symm
+  have hrun := readTableAUTOUGH2_run tn t s A b B b2 Bl D term tail ht hrest hA hb hB hb2 hBl hfirst hD hterm hok hsz
+  refine ⟨_, { t with data := applyRows t.data (enumRows 0 (D.filterMap f)) }, hrun, rfl, ?_, rfl, ?_, ?_, ?_, ?_, ?_, rfl⟩
+  · exact putT_lookup_self tn _ _ (by simp [ht])
+  · exact applyRows_size _ _
+  · intro j d hj
+    obtain ⟨vals, hv, hl, hf⟩ := rowOfLineA_some (hok d (List.mem_of_getElem? hj))
+    refine ⟨vals, hv, hl, ?_⟩
+    have hget : (D.filterMap f)[j]? = some vals := by
+      have := congrArg (fun l => l[j]?) hmap
+      simp only [List.getElem?_map, hj, Option.map_some] at this
+      have hf' : f d = some vals := hf
+      rw [hf'] at this
+      cases h : (D.filterMap f)[j]? with
+      | none => rw [h] at this; cases this
+      | some v => rw [h] at this; simp only [Option.map_some, Option.some.injEq] at this; rw [this]
+    have := applyRows_enum t.data 0 (D.filterMap f) j vals hget (by rw [hlen, hdata]; omega)
+    simpa using this
+  · intro i hi
+    exact applyRows_enum_other t.data 0 (D.filterMap f) i (Or.inr (by rw [hlen]; omega))
+  · intro m hm
+    exact putT_lookup_other tn m _ _ hm
+  · exact putT_names tn _ _
+
+open Proofs.Whole in
+/-- **Skipping a table leaves the file where reading it would (AUTOUGH2).**  On the same region, when no line of the
+    header block carries the table's keyword in columns 1..5, `skip_table_AUTOUGH2` and `read_table_AUTOUGH2` end at
+    the same file position, and the skip changes nothing else. -/
+theorem skip_table_lands_where_read_lands_AUTOUGH2 (tn : String) (t : Table) (s : Rd)
+    (A : List Str) (b : Str) (B : List Str) (b2 : Str) (Bl D : List Str) (term : Str) (tail : List Str)
+    (ht : s.tables.lookup tn = some t)
+    (hrest : s.pos.rest = autRegion A b B b2 Bl D term tail)
+    (hwf : TableRegionA tn t A b B b2 Bl D term)
+    (hhead : ∀ l ∈ b :: (B ++ b2 :: Bl), slice l 1 6 ≠ keyword5 tn) :
+    ∃ s₁ s₂, (readTableAUTOUGH2 tn).run s = .ok ((), s₁) ∧ (skipTableAUTOUGH2 tn).run s = .ok ((), s₂) ∧
+      s₂.pos = s₁.pos ∧ s₂ = { s with pos := s₂.pos } := by
+  obtain ⟨s₁, _, hrun, hpos, _⟩ := table_read_AUTOUGH2 tn t s A b B b2 Bl D term tail ht hrest hwf
+  refine ⟨s₁, _, hrun, skipTableAUTOUGH2_run tn s A b B b2 Bl D term tail hrest hwf.1 hwf.2.1 hhead hwf.2.2.2.2.2.2.1 hwf.2.2.2.2.2.2.2.1, ?_, rfl⟩
+  rw [hpos]
+
+-- the hypotheses are satisfiable: an AUTOUGH2 element table of two rows between its two `EEEEE` lines
+private def exTA : Table :=
+  { mkTable [['P'], ['T'], ['X']] #[["AA  1".toList], ["AA  2".toList]] 1 false with keyPos := [4], numpos := [some 24] }
+private def exDA : List Str :=
+  ["    AA  1         1      0.29971E+08      0.39992E+03 -0.10000E+01\r\n".toList,
+   "    AA  2         2      0.29000E+08      0.10000E+03  0.00000E+00\r\n".toList]
+private def exRdA : Rd :=
+  let ls := Proofs.Whole.autRegion [" a title line\n".toList] "\n".toList [" ELEMENT INDEX P T X\n".toList, " (PA) (DEG-C)\n".toList]
+    "\n".toList ["  \n".toList] exDA " EEEEEEEEEEEEEEE\n".toList ["\n".toList, " next\n".toList]
+  { all := ls, isOutputData := false, pos := ⟨7, ls⟩, tables := [("element", exTA)] }
+example : exRdA.tables.lookup "element" = some exTA ∧
+    exRdA.pos.rest = Proofs.Whole.autRegion [" a title line\n".toList] "\n".toList [" ELEMENT INDEX P T X\n".toList, " (PA) (DEG-C)\n".toList]
+      "\n".toList ["  \n".toList] exDA " EEEEEEEEEEEEEEE\n".toList ["\n".toList, " next\n".toList] ∧
+    TableRegionA "element" exTA [" a title line\n".toList] "\n".toList [" ELEMENT INDEX P T X\n".toList, " (PA) (DEG-C)\n".toList]
+      "\n".toList ["  \n".toList] exDA " EEEEEEEEEEEEEEE\n".toList ∧
+    (∀ l ∈ "\n".toList :: ([" ELEMENT INDEX P T X\n".toList, " (PA) (DEG-C)\n".toList] ++ "\n".toList :: ["  \n".toList]),
+      slice l 1 6 ≠ keyword5 "element") :=
+  ⟨rfl, rfl, by decide, by decide⟩
+
+
+/-! ### all tables of one result block (TOUGH2 family): read_tables_TOUGH2, with some tables skipped
+
+  A block is a list of entries (`Proofs.Whole.TEntry`): a table name, its lines — either a table that is read
+  (`TKind.read t header segs`: the region of `table_read_TOUGH2`) or one that is skipped because the reader holds no
+  table of that name (it is in `skip_tables`, so was never set up, or was absent at the first result time:
+  `TKind.skip R atl`, lines `R` without `@@@@@` in columns 1..5 followed by the `@@@@@` line) — and the lines up to
+  the next table: lines `X` without a `KCYC … ITER` line, that line `kc`, blank lines `Bl`.  `EntryOk`, `LinksOk`,
+  `EndOk` (Proofs/ListingWholeBlock.lean) are the decidable well-formedness conditions: every read region is well
+  formed for its table, every walk finds the `KCYC` line before the next result block and the next header names the
+  next table (not the diffusion block `MASS FLOW RATES …`), and behind the last table comes the end of the file or a
+  `KCYC` line of the next block.  `read_tables_TOUGH2` is `read_header` followed by this loop with fuel
+  `len(remaining lines) + 2` (`Proofs.Whole.readTables_T2`); the theorem holds for any fuel above the number of tables. -/
+
+open Proofs.Whole in
+/-- **Every table of the block holds the values of its own region; skipping some tables changes nothing else.**
+    The loop of `read_tables_TOUGH2` over a well-formed block returns; the file is left behind the block; every table
+    the block reads holds, under the row named by each of ITS OWN data lines, the row-reader values of that line
+    (a later line of the same table naming the same row wins) — whatever tables before it were read or skipped;
+    every table no entry reads (the skipped ones, and tables not printed in this block) keeps its contents; nothing
+    else of the reader changes. -/
+theorem tables_read_block_TOUGH2 (e : TEntry) (more : List TEntry) (Xe : List Str) (tailE : Option (Str × List Str)) (s : Rd)
+    (hrd : bound s.fam "read_table" = "read_table_TOUGH2") (hsk : bound s.fam "skip_table" = "skip_table_TOUGH2")
+    (hnt : bound s.fam "next_table" = "next_table_TOUGH2") (htt : bound s.fam "table_type" = "table_type_TOUGH2")
+    (hplus : (s.fam == .toughplus) = false)
+    (hnodup : ((e :: more).map (·.tn)).Nodup)
+    (hok : ∀ x ∈ e :: more, EntryOk s.skipTables s.tables x)
+    (hlinks : LinksOk s.fulltimes.size s.fullpos s.index s.pos.no (e :: more))
+    (hend : EndOk s.fulltimes.size s.fullpos s.index (endNo s.pos.no (e :: more)) Xe tailE)
+    (hrest : s.pos.rest = blockLines (e :: more) (endLines Xe tailE))
+    (fuel : Nat) (hfuel : more.length < fuel) :
+    ∃ s', (tablesLoop actT2 false false fuel e.tn 0).run s = .ok ((), s') ∧
+      s'.pos = endPos (endNo s.pos.no (e :: more)) Xe tailE ∧
+      (∀ x ∈ e :: more, ∀ t header segs, x.kind = .read t header segs → t.data.size = t.rows.size →
+        ∃ t', s'.tables.lookup x.tn = some t' ∧ t' = { t with data := t'.data } ∧
+          ∀ (j : Nat) d i vals, (segs.map (·.1))[j]? = some d →
+            rowOfLineT t.rows t.keyPos t.cols.length t.numpos d = some (i, vals) →
+            (∀ (j' : Nat) d', j < j' → (segs.map (·.1))[j']? = some d' →
+              ∀ v', rowOfLineT t.rows t.keyPos t.cols.length t.numpos d' ≠ some (i, v')) →
+            t'.data[i]? = some vals.toArray) ∧
+      (∀ m, (∀ x ∈ e :: more, x.tn = m → ∃ R atl, x.kind = .skip R atl) → s'.tables.lookup m = s.tables.lookup m) ∧
+      s' = { s with pos := s'.pos, tables := s'.tables } := by
+  have hrun := tablesLoop_block e more Xe tailE s fuel 0 hfuel hrd hsk hnt htt hplus hnodup hok hlinks hend hrest
+  refine ⟨_, hrun, rfl, ?_, ?_, rfl⟩
+  · intro x hx t header segs hk hdata
+    have hxok := hok x hx
+    unfold EntryOk at hxok
+    rw [hk] at hxok
+    refine ⟨_, foldl_lookup_read (e :: more) s.tables x t header segs hx hk hnodup (by rw [hxok.2.1]; rfl), rfl, ?_⟩
+    intro j d i vals hj hf hlater
+    have hi : i < t.data.size := by
+      obtain ⟨key, _, hli, _, _⟩ := (rowOfLineT_spec _ _ _ _ _ _ _).mp hf
+      rw [hdata]; exact (Proofs.Listing.lastIdx_spec hli).1
+    exact applyRows_line _ _ t.data j d i vals hj hf hi hlater
+  · intro m hm
+    exact foldl_lookup_not_read (e :: more) s.tables m hm
+
+-- the hypotheses are satisfiable: the element table of the example above is read, then a connection table the
+-- reader holds no table for is skipped, then the file ends
+private def exE1 : Proofs.Whole.TEntry :=
+  { tn := "element", kind := .read exT2 exHdr exSegs, X := [" @@@@@@@@@@\n".toList, "\n".toList],
+    kc := "   KCYC =   1  -  ITER =  1\n".toList, Bl := ["\n".toList] }
+private def exE2 : Proofs.Whole.TEntry :=
+  { tn := "connection",
+    kind := .skip [" ELEM1 ELEM2 INDEX FLOH\n".toList, "\n".toList, "  AA 1  BA 1     1 0.10000E+01\n".toList] " @@@@@@@@@@\n".toList }
+private def exRdB : Rd :=
+  let ls := Proofs.Whole.blockLines [exE1, exE2] (Proofs.Whole.endLines ["\n".toList] none)
+  { all := ls, isOutputData := false, pos := ⟨20, ls⟩, fam := .tough2, tables := [("element", exT2)], skipTables := ["connection"] }
+example : bound exRdB.fam "read_table" = "read_table_TOUGH2" ∧ bound exRdB.fam "skip_table" = "skip_table_TOUGH2" ∧
+    bound exRdB.fam "next_table" = "next_table_TOUGH2" ∧ bound exRdB.fam "table_type" = "table_type_TOUGH2" ∧
+    (exRdB.fam == .toughplus) = false ∧ (([exE1, exE2]).map (·.tn)).Nodup := by decide
+example : Proofs.Whole.EntryOk exRdB.skipTables exRdB.tables exE1 ∧ Proofs.Whole.EntryOk exRdB.skipTables exRdB.tables exE2 := by
+  refine ⟨⟨by decide, rfl, by decide, by decide, by decide⟩, ⟨rfl, by decide, by decide⟩⟩
+example : Proofs.Whole.LinksOk exRdB.fulltimes.size exRdB.fullpos exRdB.index exRdB.pos.no [exE1, exE2] ∧
+    Proofs.Whole.EndOk exRdB.fulltimes.size exRdB.fullpos exRdB.index (Proofs.Whole.endNo exRdB.pos.no [exE1, exE2]) ["\n".toList] none := by
+  refine ⟨⟨⟨by decide, by decide, by decide, by decide, by decide, by decide, by decide, by decide, by decide⟩, trivial⟩, by decide, trivial⟩
 
 end Props.C05
